@@ -478,6 +478,14 @@ theorem C16_client_schemas_total (g : Graph) (p : PackageRoots) (hf : FlatLinked
     ∃ cg s, clientGraph g = some (.ok cg) ∧ clientSchemas g p = some (.ok s) :=
   clientSchemas_ok g p hf
 
+/-! ## J5 JSON rendering of the client API — interface only
+
+`codec.ProtoToJSON(client API)` is the codec cluster's model (C01 / C08: what the encoder writes for
+a message of a given schema, and that it is well-formed JSON). C16 adds nothing to it: the client
+API is an ordinary `j5.client.v1.API` message (objects, oneofs, enums, arrays, maps, strings, a
+timestamp), and the `pipe.chain` stream checks on every generated package that the stage returns
+without error or panic and that its output is well-formed JSON (`json.Valid`). No theorem here. -/
+
 /-! ## OpenAPI paths -/
 
 /-- **Path grouping of `BuildSwagger`** (`addMethod`'s loop + `OrderedMap`): for every list of
